@@ -17,7 +17,7 @@ REQUIRED_THEOREMS = ['Usid.C15.budget', 'Usid.C15.monotone', 'Usid.C15.cores_bou
                      'Usid.C15.recommend_zero_request_raises', 'Usid.C15.recommend_zero_jobs_raises',
                      'Usid.C15.zero_budget_errors', 'Usid.C15.terminates_all_done', 'Usid.C15.admits_one_row',
                      'Usid.C15.generated_set_memory_eq_hand', 'Usid.C15.generated_budget', 'Usid.C15.generated_monotone',
-                     'Usid.C15.generated_admits_one_row',
+                     'Usid.C15.generated_admits_one_row', 'Usid.C15.sizing_then_compute',
                      'Usid.C15.set_memory_small_multiplier_raises', 'Usid.C15.set_memory_sign_irrelevant',
                      'Usid.C15.set_memory_zero_workers_raises', 'Usid.C15.set_memory_zero_row_raises']
 RULE = ('[also: budgets that admit 2^32 rows and more] [also: min_free_cores (valid, boundary and invalid values); the batch size must be >= 1 whenever the budget admits a row] simulated machines (psutil/multiprocessing patched in the harness): sizing cases (logical cores, available '
